@@ -78,23 +78,35 @@ def make_population(g, n_clients, d=3, num_domains=2):
   return pop
 
 
+class ClientFailure(Exception):
+  """Injected: this client's batch stream fails (device went away mid-round)."""
+
+
 class _RecView:
-  def __init__(self, view, log, kind):
-    self._view, self._log, self._kind = view, log, kind
+  def __init__(self, view, log, kind, fail_after=None):
+    self._view, self._log, self._kind, self._fail_after = view, log, kind, fail_after
 
   def __iter__(self):
+    n = 0
     for b in self._view:
+      if self._fail_after is not None and n >= self._fail_after:
+        raise ClientFailure('injected client failure after %d batches' % n)
       self._log.append((self._kind, b))
       yield b
+      n += 1
+    if self._fail_after is not None:
+      raise ClientFailure('injected client failure at the end of the batch stream')
 
 
-def recording_dataset(raw, log):
-  """A real ClientDataset (real batching code runs) that tees every batch consumed into `log`."""
+def recording_dataset(raw, log, fail_after=None):
+  """A real ClientDataset (real batching code runs) that tees every batch consumed into `log`.
+
+  fail_after=j makes the training batch stream raise ClientFailure after j batches (fault injection)."""
   import fedjax
 
   class RecordingClientDataset(fedjax.ClientDataset):
     def shuffle_repeat_batch(self, hparams=None, **kw):
-      return _RecView(super().shuffle_repeat_batch(hparams, **kw), log, 'srb')
+      return _RecView(super().shuffle_repeat_batch(hparams, **kw), log, 'srb', fail_after)
 
     def padded_batch(self, hparams=None, **kw):
       return _RecView(super().padded_batch(hparams, **kw), log, 'pad')
